@@ -129,6 +129,18 @@ func genTTL(t *rapid.T, label string, now int64) uint32 {
 
 var smallKeys = []string{"a", "b", "c", "d"}
 
+// keyAlphabets: the usual four short keys, keys that look like the chunked
+// handler's derived entry names, and keys at the 250-byte limit.
+var keyAlphabets = [][]string{
+	smallKeys, smallKeys, smallKeys,
+	{"a", "a-0", "a-meta", "a-1"},
+	{strings.Repeat("K", 249) + "1", strings.Repeat("K", 249) + "2", "k", strings.Repeat("K", 248) + "-0"},
+}
+
+func genAlphabet(t *rapid.T) []string {
+	return keyAlphabets[rapid.IntRange(0, len(keyAlphabets)-1).Draw(t, "alphabet")]
+}
+
 // cmdGenOpts steers genCmd.
 type cmdGenOpts struct {
 	Binary    bool
